@@ -10,7 +10,7 @@ GW_TRACE = {"kind": "trace", "spec": "TraceGateway", "module": "Gateway", "quick
 
 TOKEN_TRACE = {"kind": "trace", "spec": "TraceToken", "module": "Token", "quick": (8, 300), "thorough": (64, 800)}
 GAS_TRACE = {"kind": "trace", "spec": "TraceGas", "module": "GasService", "quick": (8, 300), "thorough": (64, 800)}
-ITS_TRACE = {"kind": "trace", "spec": "TraceITS", "module": "ITS", "quick": (8, 100), "thorough": (48, 400), "tlc_timeout": 3600}
+ITS_TRACE = {"kind": "trace", "spec": "TraceITS", "module": "ITS", "quick": (8, 100), "thorough": (24, 300), "tlc_timeout": 3600}
 SMALL_TRACES = [dict(t, quick=(4, 120)) for t in (GW_TRACE, TOKEN_TRACE, GAS_TRACE)] + [dict(ITS_TRACE, quick=(4, 80))]
 
 SYSTEM_JOB = {"kind": "graph", "spec": "MC_System", "module": "System", "evkinds": GW_EVENTS + ITS_EVENTS,
@@ -155,6 +155,8 @@ PROPS = {
         "jobs": [
             {"kind": "graph", "spec": "MC_C02", "module": "Gateway", "evkinds": GW_EVENTS,
              "need": ["ApproveMessages/ok", "ValidateMessage/ok"]},
+            {"kind": "graph", "spec": "MC_C02", "cfg": "MC_C02_deep", "tiers": ["thorough"], "module": "Gateway", "evkinds": GW_EVENTS,
+             "need": ["ApproveMessages/ok", "ValidateMessage/ok"]},
             GW_TRACE,
         ],
         "level_text": "TLC proves the status-monotonicity / exactly-once invariants on every reachable state of a finite instance (all interleavings, no depth bound) and every one of its transitions is executed against the real gateway with the specification's post-state as oracle.",
@@ -195,6 +197,10 @@ PROPS = {
              "need": ["ApproveMessages/ok", "RotateSigners/ok", "ValidateProof/ok"] + ([] if r in ("9", "max", "max1") else ["ApproveMessages/retention", "RotateSigners/retention"]),
              "control": latest_proof_control}
             for r in ["0", "1", "2", "9", "max", "max1"]
+        ] + [
+            {"kind": "graph", "spec": "MC_C08", "cfg": "MC_C08_%s" % r, "tiers": ["thorough"], "module": "Gateway", "evkinds": GW_EVENTS,
+             "need": ["ApproveMessages/ok", "ApproveMessages/retention", "RotateSigners/retention"], "control": latest_proof_control}
+            for r in ["deep1", "deep3"]
         ] + [GW_TRACE],
         "level_text": "TLC proves honoured <=> epoch distance <= retention for approvals, proof checks and bypass rotations and 'plain rotation only by the newest set' on every reachable state; the instance keeps the route (1..3 initial sets, plain/bypass per epoch) in its state, so a proof from every installed epoch is replayed against the real gateway after every history of <= 6 epochs, for retention 0, 1, 2 and 9.",
         "rule": "cases = transitions of the bounded TLC instances (one per retention setting) replayed against the contracts; distinct = distinct (route, action) pairs, each a proof from one installed epoch through one entry point",
@@ -208,6 +214,9 @@ PROPS = {
              "need": ["RotateSigners/ok", "RotateSigners/operator_auth", "Tick/ok"] + ([] if d == "d0" else ["RotateSigners/delay"]),
              "control": wait_longer_control}
             for d in ["d0", "d1", "d10", "d10big"]
+        ] + [
+            {"kind": "graph", "spec": "MC_C09", "cfg": "MC_C09_d30", "tiers": ["thorough"], "module": "Gateway", "evkinds": GW_EVENTS,
+             "need": ["RotateSigners/ok", "RotateSigners/delay"], "control": wait_longer_control},
         ] + [GW_TRACE],
         "level_text": "TLC proves the delay limit, its completeness at the boundary, the clock rule (restart on every success incl. bypass, untouched on failure) and operator-only bypass on every reachable state; every transition (time steps of 1, D-1, D, D+1 interleaved with plain/bypass rotations that succeed or fail) is replayed against the real gateway with the ledger timestamp set by the harness.  The rotation clock is not observable; it is decided by the accept/reject outcome of every later rotation in the graph.",
         "rule": "cases = transitions of the bounded TLC instances (one per minimum delay) replayed against the contracts; distinct = distinct (abstract pre-state incl. now and last rotation time, action) pairs",
@@ -229,6 +238,9 @@ PROPS = {
             {"kind": "graph", "spec": "MC_C01", "cfg": "MC_C01_%s" % c, "module": "Gateway", "evkinds": GW_EVENTS,
              "need": ["ApproveMessages/ok", "ValidateProof/ok"], "control": all_valid_control, "quick_edges": 3000}
             for c in ["rmax", "rmax1"]
+        ] + [
+            {"kind": "graph", "spec": "MC_C01", "cfg": "MC_C01_deep", "tiers": ["thorough"], "module": "Gateway", "evkinds": GW_EVENTS,
+             "need": ["ApproveMessages/ok", "ApproveMessages/signatures"], "control": all_valid_control},
         ] + [GW_TRACE],
         "level_text": "TLC proves soundness (accepted => retained set and valid weight >= threshold), completeness (honest sufficient subset => accepted) and the frame rule on every reachable state; every transition - all 8^n signature-tag vectors for every installed set, nine single tamperings of the declared set, claimed sets latest/retained/expired/unknown - is executed against the real gateway with signatures and digests built by the harness's own recipe (sha3 Keccak, ed25519-dalek), on the u128 lattice (threshold = total = u128::MAX) and in unit weights.",
         "rule": "cases = transitions of the two bounded TLC instances replayed against the contracts; distinct = distinct (pre-state, entry point, declared set, tag vector) tuples",
